@@ -1,4 +1,4 @@
-"""C04 - the generated Ninja manifest is well-formed (statement level; graph closure outside)."""
+"""C04 - the generated Ninja manifest is well-formed and closed (statement level for arbitrary paths; graph level on generated projects without a compiled language)."""
 import os
 from symx.api import *
 from harness.ninjaref import DecodeError, parse_manifest, path_text
@@ -6,11 +6,14 @@ from harness.c03 import Out
 
 PROPERTY = 'C04'
 LEVEL = 'other'
-FILES = ['mesonbuild/backend/ninjabackend.py', 'mesonbuild/backend/backends.py', 'mesonbuild/utils/universal.py']
+FILES = ['mesonbuild/backend/ninjabackend.py', 'mesonbuild/backend/backends.py', 'mesonbuild/utils/universal.py', 'mesonbuild/build.py', 'mesonbuild/interpreter/interpreter.py']
 ENCODED = ['NinjaBuildElement.__init__/add_dep/add_orderdep/add_item/check_outputs/count_rule_references/_should_use_rspfile/write',
            'NinjaRule.__init__/write/should_use_rspfile/_length_estimate', 'NinjaBuild.add_rule/add_build/write', 'ninja_quote',
            'Backend.generate_unity_files/_determine_ext_objs/get_unity_source_file/object_filename_from_source/canonicalize_filename, NinjaBackend.get_target_source_can_unity, '
-           'classify_unity_sources (unity-extract obligation; file writes are recorders, compilers are 3 stubs c/cpp/fortran)']
+           'classify_unity_sources (unity-extract obligation; file writes are recorders, compilers are 3 stubs c/cpp/fortran)',
+           'project-graph: Interpreter.run (project, find_program, configure_file, generator, custom_target, alias_target, run_target, test, benchmark, subdir) and NinjaBackend.generate '
+           '(generate_custom_target, generate_genlist_for_target, generate_run_target, generate_tests, generate_ending, get_testlike_targets, get_build_by_default_targets ...) on a scratch directory; '
+           'ninja detection and the compilation database are stubs']
 EXPLANATION = ('Symbolic execution of the real manifest writer on a manifest of up to 2 rules and 2-3 build statements whose output, implicit-output, input, '
                'dependency and order-only paths are symbolic strings (alphabet with space, colon, $, |, #, backslash), whose rule is chosen symbolically (defined, '
                'phony, undefined) and with rsp_threshold symbolic; the text is parsed by a reference implementation of the Ninja manifest grammar and compared '
@@ -21,13 +24,14 @@ EXPLANATION = ('Symbolic execution of the real manifest writer on a manifest of 
                '(which generate_target compiles one by one), no unity file is empty or exceeds unity_size, and every source is included exactly once.')
 ASSUMPTIONS = ['paths of 1-2 characters over {a, b, space, :, $, |, #, \\}', 'reference Ninja parser is the trusted base',
                'an undefined rule makes write() fail (any exception): no manifest is produced, which does not violate the statement']
-OUT = ('EVERYTHING ELSE that needs a configured project: which edges generate_target/generate_custom_target/generate_link/generate_ending create, existence of inputs, '
-       'acyclicity, reachability from all / meson-test-prereq, configure-time rejection of colliding target names. The graph-level half of C04 is NOT decided here.')
+OUT = ('graph level for projects WITH compiled targets (executables, libraries, generate_target / generate_link edges need a compiler), subprojects, layouts other than mirror, '
+       'configure-time rejection of colliding target names, odd target names; the graph-level clauses are decided for generated projects of custom targets, generators, configure_file, alias / run '
+       'targets, tests and a subdirectory only')
 MANIFEST = dict(
-    text='Bounded symbolic decision of STATEMENT-LEVEL well-formedness only: whatever paths/rules/dep orders (within the bound) are handed to NinjaBuild, the text it '
+    text='Bounded symbolic decision of statement-level well-formedness: whatever paths/rules/dep orders (within the bound) are handed to NinjaBuild, the text it '
          'writes is a valid manifest for a reference Ninja parser, references only defined rules, round-trips every path list, and two producers of one path are '
-         'rejected; plus closure for one edge kind (extracted objects of a unity target exist, for every unity_size). The other graph-level claims of C04 (closure in general, acyclicity, reachability from all) need a configured project and are not decided by this check.',
-    note='Partial claim. Trusted: symx engine, z3, reference Ninja parser. Bounds: <=2 rules, <=2 build statements (3 in thorough for the duplicate-output rule), paths <=2 chars.')
+         'rejected; closure for two edge kinds of compiled targets (unity extraction, module scanning); and the GRAPH-LEVEL clauses (defined rules, one producer per path, acyclic, every input exists or is produced, reachability from all / meson-test-prereq / meson-benchmark-prereq) on whole configurations - real Interpreter and NinjaBackend.generate - of generated projects WITHOUT a compiled language (custom targets with 1-2 outputs, generator, configure_file, alias / run targets, tests, a subdirectory) whose flags and indices are symbolic. Projects with compiled targets are outside the graph-level claim.',
+    note='Partial claim. Trusted: symx engine, z3, reference Ninja parser. Bounds: <=2 rules, <=2 build statements (3 in thorough for the duplicate-output rule), paths <=2 chars; project-graph: 3 custom targets, what B and C consume (7 x 5 shapes) and the consumers (7 alias/run shapes x 11 test shapes) varied separately in quick, jointly in thorough.')
 
 nb = ME = None
 
